@@ -7,6 +7,7 @@
 package c20
 
 import (
+	"archive/tar"
 	"context"
 	"crypto/md5"
 	"crypto/sha1"
@@ -421,16 +422,42 @@ func TestC20(t *testing.T) {
 			defer func() { _ = z.Close(); _ = zf.Close() }()
 		}
 		type way struct {
-			name string
-			fs   filesystem.FS
-			path func(l int) string
+			name  string
+			fs    filesystem.FS
+			path  func(l int) string
+			mount func() (filesystem.FS, func()) // non-nil: a fresh mount per algorithm instead of fs
 		}
 		ways := []way{
-			{"os-through-link", osfs, func(l int) string { return filepath.Join(dir, fmt.Sprintf("link-to-f%d", l)) }},
-			{"os-through-linked-directory", osfs, func(l int) string { return filepath.Join(dir+"-linked-directory", fmt.Sprintf("f%d", l)) }},
+			{name: "os-through-link", fs: osfs, path: func(l int) string { return filepath.Join(dir, fmt.Sprintf("link-to-f%d", l)) }},
+			{name: "os-through-linked-directory", fs: osfs, path: func(l int) string { return filepath.Join(dir+"-linked-directory", fmt.Sprintf("f%d", l)) }},
 		}
 		if zfs != nil {
-			ways = append(ways, way{"zip", zfs, func(l int) string { return fmt.Sprintf("f%d", l) }})
+			ways = append(ways, way{name: "zip", fs: zfs, path: func(l int) string { return fmt.Sprintf("f%d", l) }})
+		}
+		// ... and as members of a tar archive opened as a filesystem (the tar backend; the archive is written by the harness)
+		tarPath := dir + "-archive.tar"
+		defer os.Remove(tarPath)
+		if tf, err := os.Create(tarPath); err != nil {
+			rep.EngineError("tar of the file set: %v", err)
+		} else {
+			tw := tar.NewWriter(tf)
+			for _, l := range lens {
+				data := content(l, 9)
+				_ = tw.WriteHeader(&tar.Header{Name: fmt.Sprintf("f%d", l), Mode: 0o644, Size: int64(len(data)), ModTime: time.Unix(1700000000, 0), Typeflag: tar.TypeReg})
+				_, _ = tw.Write(data)
+			}
+			_ = tw.Close()
+			_ = tf.Close()
+			// mounted afresh for every algorithm: what an earlier reader of a member left behind is then part of the case (first
+			// call, second call, third call on one mount), not of the order in which the algorithms are gone through
+			ways = append(ways, way{name: "tar", path: func(l int) string { return fmt.Sprintf("f%d", l) }, mount: func() (filesystem.FS, func()) {
+				tfs, th, err := filesystem.NewTarFileSystemFromStandardFileSystem(tarPath, filesystem.NoLimits())
+				if err != nil {
+					rep.EngineError("tar filesystem: %v", err)
+					return nil, func() {}
+				}
+				return tfs, func() { _ = tfs.Close(); _ = th.Close() }
+			}})
 		}
 		// history on the file side: the same hasher object asked about a file of the same name, size and modification
 		// time but other bytes — a second archive mounted as a filesystem, and a file rewritten in place on the OS and
@@ -548,24 +575,35 @@ func TestC20(t *testing.T) {
 		}
 		for _, wy := range ways {
 			for _, algo := range algos {
+				wfs, unmount := wy.fs, func() {}
+				if wy.mount != nil {
+					if wfs, unmount = wy.mount(); wfs == nil {
+						continue
+					}
+				}
 				for _, l := range lens {
 					want := reference(algo, content(l, 9))
 					p := wy.path(l)
 					for round := 0; round < 2; round++ { // twice: the second calculation must not depend on the first
-						got, err := wy.fs.FileHash(algo, p)
+						got, err := wfs.FileHash(algo, p)
 						fileCases++
 						transitions.Add(1)
 						if err != nil || got != want {
-							rep.Violation(fmt.Sprintf("wrong-FileHash:backend=%s:algo=%s", wy.name, algo), map[string]any{"path": p, "len": l, "round": round, "got": got, "want": want, "err": fmt.Sprint(err)})
+							call := ""
+							if round > 0 {
+								call = ":second-call-on-the-same-file"
+							}
+							rep.Violation(fmt.Sprintf("wrong-FileHash:backend=%s:algo=%s%s", wy.name, algo, call), map[string]any{"path": p, "len": l, "round": round, "got": got, "want": want, "err": fmt.Sprint(err)})
 						}
 					}
 					if fh, err := filesystem.NewFileHash(algo); err == nil {
-						got, err := fh.CalculateFile(wy.fs, p)
+						got, err := fh.CalculateFile(wfs, p)
 						if err != nil || got != want {
-							rep.Violation(fmt.Sprintf("wrong-file-digest:backend=%s:algo=%s:prev=none", wy.name, algo), map[string]any{"path": p, "len": l, "got": got, "want": want, "err": fmt.Sprint(err)})
+							rep.Violation(fmt.Sprintf("wrong-file-digest:backend=%s:algo=%s:prev=none:after-two-earlier-reads-of-the-file", wy.name, algo), map[string]any{"path": p, "len": l, "got": got, "want": want, "err": fmt.Sprint(err)})
 						}
 					}
 				}
+				unmount()
 			}
 		}
 	}
